@@ -141,6 +141,21 @@ def frame_sequences(maxlen, flagsets, allows=(False, True), reader="cursor"):
                     yield case_line(reader, allow, riff(body)), "exhaustive-frame-%d" % n
 
 
+def frame_orders(maxframes, allows=(False, True), reader="cursor"):
+    """all sequences of up to maxframes animation frames over the frame kinds (lossy, lossless, lossy with uncompressed / lossless
+    alpha, lossy + unknown chunk, and the invalid alpha + lossless), under the animation flag with and without the alpha flag: what a
+    frame may contain must not depend on the frames before it"""
+    kinds = [mk(b"VP8 "), chunk(b"VP8L", vp8l_payload(2, 3)), mk(b"ALPH") + mk(b"VP8 "), chunk(b"ALPH", b"\1" + LL_OK) + mk(b"VP8 "),
+             mk(b"VP8 ") + chunk(b"UNKN", b"xy"), mk(b"ALPH") + chunk(b"VP8L", vp8l_payload(2, 3))]
+    for n in range(1, maxframes + 1):
+        for seq in itertools.product(range(len(kinds)), repeat=n):
+            frames = b"".join(chunk(b"ANMF", anmf_payload(kinds[k], w=2, h=3)) for k in seq)
+            for f in (ANIM, ANIM | ALPHA):
+                body = mk(b"VP8X", flags=f) + mk(b"ANIM") + frames
+                for allow in allows:
+                    yield case_line(reader, allow, riff(body)), "frame-orders-%d" % n
+
+
 def valid_files(rng=None):
     """a set of valid files of every shape (used as seeds for mutation/truncation)"""
     out = []
